@@ -876,7 +876,11 @@ func (g *sfGen) command() sfCmd {
 				b.piece(g.arg(plainB64(u, p), false))
 				g.count("sasl-ir-as-string")
 			} else {
-				b.word(" " + pick(g.r, []string{plainB64(u, p), "=", "!!", line}))
+				ir := pick(g.r, []string{plainB64(u, p), "=", "!!", line})
+				if ir == "" { // "AUTHENTICATE PLAIN " + CRLF has no initial response: the server would ask
+					ir = "="
+				}
+				b.word(" " + ir)
 			}
 			return b.end()
 		}
